@@ -57,12 +57,14 @@ pub fn c20_jd_gmt() {
 }
 
 /// stepping: sub/add(n) move the date by n days, the value by n, and keep the offset (C09's search steps)
+macro_rules! jd_step {
+    ($name:ident, $ylo:expr, $yhi:expr) => {
 #[kani::proof]
-pub fn c09_jd_step() {
+pub fn $name() {
     let y: i32 = kani::any();
     let o: u32 = kani::any();
     let n: u64 = kani::any();
-    kani::assume(y >= 1600 && y <= 2399 && o >= 1 && o <= 366 && n <= 366);
+    kani::assume(y >= $ylo && y <= $yhi && o >= 1 && o <= 366 && n <= 366);
     let date = chrono::NaiveDate::from_yo_opt(y, o);
     kani::assume(date.is_some());
     let v = any_f64_in(2305000., 2600000.);
@@ -75,3 +77,7 @@ pub fn c09_jd_step() {
     assert!(jd.date.signed_duration_since(s.date).num_days() == n as i64, "C09 sub(n) moves the civil date n days back");
     assert!(s.gmt == jd.gmt && a.gmt == jd.gmt, "C09 stepping keeps the GMT offset");
 }
+    };
+}
+jd_step!(c09_jd_step, 1600, 2399);
+jd_step!(c09_jd_step_q, 2019, 2025);
